@@ -305,8 +305,10 @@ func main() {
 	runPhase("fault-pair/bound0", pairs, 0, false, 1)
 	if r.Thorough() {
 		runPhase("fault-pair/bound1", pairs, 1, true, 1)
-		runPhase("no-fault/bound2", nofault, 2, true, 4)
-		runPhase("single-fault/bound2", singles, 2, true, 8)
+		// cheapest statements first: what the budget cuts off is the tail of the most expensive plans
+		byCost := append([]plan(nil), singles...)
+		sort.SliceStable(byCost, func(i, j int) bool { return repOf[byCost[i].sc.ID].Steps < repOf[byCost[j].sc.ID].Steps })
+		runPhase("single-fault/bound2", byCost, 2, true, 8)
 	}
 	if !allComplete {
 		r.SetCapped()
